@@ -416,7 +416,7 @@ func runInstance(prog *sx.Program, h Harness, params []int64, tier string, known
 				continue
 			}
 			if !r.Confirmed {
-				ir.Unconfirmed = append(ir.Unconfirmed, lab+" @ "+r.Ob.Pos+" native: "+r.Native)
+				ir.Unconfirmed = append(ir.Unconfirmed, lab+" @ "+r.Ob.Pos+" inputs: "+renderAssign(r.Assign)+" native: "+r.Native)
 				continue
 			}
 			if r.KnownID != "" {
